@@ -710,9 +710,30 @@ def run(ck):
     check_allocsz(ck, prog)
     check_distvalid(ck, prog)
     check_nullarith(ck, prog)
+    # the SHA-256 padding writes into the 64-byte block buffer: the number of padding blocks decides whether the
+    # writes stay inside it (C14 rule, all 64 residues)
+    from . import C14 as _C14
+    _C14.check_sha(ck, prog)
     # invalid input must not leak (rule shared with C10) nor stall the threaded decoder (rule shared with C07)
     from . import C10, C07
     C10.check_localown(ck, prog)
+    C10.check_localalloc(ck, prog, rule="C04-LOCALALLOC")
+    # lzma_properties_decode(): "always NULL so that the caller can always safely free() it": filter->options is
+    # cleared on every path, before the filter-specific decoder (which may fail or have nothing to store) runs
+    pd = prog.fn("lzma_properties_decode", "filter_decoder.c")
+    ck.saw_function(pd)
+    ck.rule("C04-OPTNULL", "lzma_properties_decode() stores filter->options = NULL on every path to a return")
+
+    def _via(bb, ii, ee):
+        return any(ex.show(ex.strip(l)).endswith("->options") and r is not None and ex.is_const(r, 0)
+                   for (l, r, op, nd) in ex.writes(ee))
+    okn, pathn = cfg.must_pass(pd, [pd.entry], [pd.exit], _via)
+    ck.ob("C04-OPTNULL", "lzma_properties_decode", okn, common.where(pd),
+          "lzma_properties_decode: filter->options = NULL before anything else" if okn else
+          "lzma_properties_decode() can return (lines %s) without having stored filter->options = NULL: for a filter without "
+          "properties, or when the properties are rejected, the caller gets back whatever the field held (an uninitialised "
+          "pointer that is later freed or handed to an init function)" % cfg.path_lines(pd, pathn),
+          key="OPTNULL:lzma_properties_decode")
     C07.check_progress(ck, prog)
     from . import mtcommon
     mtcommon.check_wait(ck, prog, C07.CFG, "C04-WAIT")
